@@ -367,7 +367,31 @@ type c04U struct {
 	released bool
 	waited   bool
 	rejected bool
+
+	// scripted unit: the next operation must act on exactly this pod key / gang id
+	force      string
+	lastPermit Status
+
+	staleReported bool
 }
+
+func c04Pick[T any](u *c04U, cand []T, a int, key func(T) string) (T, bool) {
+	var zero T
+	if len(cand) == 0 {
+		return zero, false
+	}
+	if u.force == "" {
+		return cand[a%len(cand)], true
+	}
+	for _, x := range cand {
+		if key(x) == u.force {
+			return x, true
+		}
+	}
+	return zero, false
+}
+
+func c04PodKey(p *c04Pod) string { return p.key }
 
 type c04Snap struct {
 	delDone, boundDone map[*c04Pod]bool
@@ -555,11 +579,11 @@ func (u *c04U) infCreate(a int, prebound bool) bool {
 			}
 		}
 	}
-	if len(fs) == 0 {
+	f, ok := c04Pick(u, fs, a, func(f free) string { return fmt.Sprintf("%s/%s-p%d", c04NS, f.g.name, f.slot) })
+	if !ok {
 		u.mu.Unlock()
 		return false
 	}
-	f := fs[a%len(fs)]
 	p := &c04Pod{gang: f.g, slot: f.slot, inc: f.inc, name: fmt.Sprintf("%s-p%d", f.g.name, f.slot)}
 	p.key = c04NS + "/" + p.name
 	p.uid = types.UID(fmt.Sprintf("%s.%d", p.name, p.inc))
@@ -587,14 +611,14 @@ func (u *c04U) infTouch(a, b int) bool {
 			}
 		}
 	}
-	if b%2 == 0 && len(heldCand) > 0 {
+	if b%2 == 0 && len(heldCand) > 0 && u.force == "" {
 		cand = heldCand // versions written while the pod is assumed are the ones that go stale
 	}
-	if len(cand) == 0 {
+	p, ok := c04Pick(u, cand, a, c04PodKey)
+	if !ok {
 		u.mu.Unlock()
 		return false
 	}
-	p := cand[a%len(cand)]
 	u.rv++
 	v := c04Ver{node: p.apiNode, rv: u.rv}
 	p.queue = append(p.queue, v)
@@ -612,11 +636,11 @@ func (u *c04U) infDelete(a int) bool {
 			cand = append(cand, p)
 		}
 	}
-	if len(cand) == 0 {
+	p, ok := c04Pick(u, cand, a, c04PodKey)
+	if !ok {
 		u.mu.Unlock()
 		return false
 	}
-	p := cand[a%len(cand)]
 	p.apiDeleted = true
 	u.rv++
 	p.queue = append(p.queue, c04Ver{del: true, node: p.apiNode, rv: u.rv})
@@ -636,11 +660,11 @@ func (u *c04U) infDeliver(a int, except *c04Pod) bool {
 			cand = append(cand, p)
 		}
 	}
-	if len(cand) == 0 {
+	p, ok := c04Pick(u, cand, a, c04PodKey)
+	if !ok {
 		u.mu.Unlock()
 		return false
 	}
-	p := cand[a%len(cand)]
 	v := p.queue[0]
 	u.mu.Unlock()
 	if v.del && u.conc {
@@ -730,11 +754,11 @@ func (u *c04U) infPG(a, b int, allowChange bool) bool {
 			cand = append(cand, g)
 		}
 	}
-	if len(cand) == 0 {
+	g, ok := c04Pick(u, cand, a, func(g *c04Gang) string { return g.id })
+	if !ok {
 		u.mu.Unlock()
 		return false
 	}
-	g := cand[a%len(cand)]
 	g.pgRV++
 	rv := g.pgRV
 	if !g.cfgDone {
@@ -857,8 +881,6 @@ func (u *c04U) eligibleLocked(p *c04Pod) bool {
 
 type c04Verdict struct{ sig, msg string }
 
-var c04Debug func(u *c04U, p *c04Pod, state string)
-
 func (u *c04U) fail(v *c04Verdict) {
 	if v != nil {
 		u.c.Fail(v.sig, "%s", v.msg)
@@ -959,7 +981,8 @@ func (u *c04U) strict(p *c04Pod, after string, evs []c04Ev) *c04Verdict {
 			uniform = false
 		}
 	}
-	exempt := grp.satisfied && (cfg.policy == extension.GangMatchPolicyOnceSatisfied || !uniform)
+	satisfied := grp.satisfied
+	exempt := satisfied && (cfg.policy == extension.GangMatchPolicyOnceSatisfied || !uniform)
 	inGroup := map[string]bool{}
 	for _, g := range grp.gangs {
 		inGroup[g.name] = true
@@ -997,7 +1020,7 @@ func (u *c04U) strict(p *c04Pod, after string, evs []c04Ev) *c04Verdict {
 		checked++
 		if !rej[i] {
 			return &c04Verdict{"C04/strict/waiting-member-not-rejected",
-				fmt.Sprintf("%s of %s (gang %s, strict, group %v not once-satisfied): pod %s of gang %s is still in the waiting map and has never received a Reject", after, p.key, p.gang.id, grp.ids, w.p.key, w.p.gang.id)}
+				fmt.Sprintf("%s of %s (gang %s, strict, policy %s, group %v, a member was bound before: %v - the once-satisfied exemption does not apply): pod %s of gang %s is still in the waiting map and has never received a Reject", after, p.key, p.gang.id, cfg.policy, grp.ids, satisfied, w.p.key, w.p.gang.id)}
 		}
 	}
 	u.c.Count("strict_rollbacks_checked", 1)
@@ -1054,7 +1077,10 @@ func (u *c04U) cycle(a int, nodeFound bool, between []c04Intent) bool {
 		}
 		return false
 	}
-	p := cand[a%len(cand)]
+	p, found := c04Pick(u, cand, a, c04PodKey)
+	if !found {
+		return false
+	}
 	if u.conc {
 		p.cycleMu.Lock()
 		defer p.cycleMu.Unlock()
@@ -1087,6 +1113,7 @@ func (u *c04U) cycle(a int, nodeFound bool, between []c04Intent) bool {
 		return true
 	}
 	_, status := u.mgr.Permit(u.ctx, pod)
+	u.lastPermit = status
 	u.c.Count("op_permit", 1)
 	switch status {
 	case Success:
@@ -1134,14 +1161,8 @@ func (u *c04U) cycle(a int, nodeFound bool, between []c04Intent) bool {
 		// (2) the converse is counted, never a verdict
 		if okByCounts {
 			u.c.Count("converse_misses_wait_though_every_gang_has_min", 1)
-			if c04Debug != nil {
-				c04Debug(u, p, state)
-			}
 		} else if allOK {
 			u.c.Count("converse_misses_wait_though_once_satisfied_before", 1)
-			if c04Debug != nil {
-				c04Debug(u, p, "ONCE "+state)
-			}
 		}
 		u.fail(u.checkAllows(evs, nil, snap, "Permit=Wait"))
 	case PodGroupNotFound:
@@ -1212,10 +1233,16 @@ func (u *c04U) wake(a int) bool {
 			csig = append(csig, sig[i])
 		}
 	}
-	if len(cand) == 0 {
+	w, ok := c04Pick(u, cand, a, func(w *c04WP) string { return w.p.key })
+	if !ok {
 		return false
 	}
-	w, s := cand[a%len(cand)], csig[a%len(cand)]
+	s := 0
+	for i := range cand {
+		if cand[i] == w {
+			s = csig[i]
+		}
+	}
 	u.h.remove(w)
 	if s == 1 {
 		u.mu.Lock()
@@ -1240,10 +1267,10 @@ func (u *c04U) timeout(a int) bool {
 			cand = append(cand, w)
 		}
 	}
-	if len(cand) == 0 {
+	w, ok := c04Pick(u, cand, a, func(w *c04WP) string { return w.p.key })
+	if !ok {
 		return false
 	}
-	w := cand[a%len(cand)]
 	u.h.signal(w, false, "framework-timeout", false)
 	u.op("S", "permit timeout of %s (framework rejects)", w.p.key)
 	u.c.Count("op_timeout", 1)
@@ -1252,11 +1279,16 @@ func (u *c04U) timeout(a int) bool {
 
 // bindFinish: the bind of an allowed pod succeeds (PostBind) or fails (Unreserve) (S5).
 func (u *c04U) bindFinish(a int, ok bool) bool {
-	if len(u.binding) == 0 {
+	p, found := c04Pick(u, u.binding, a, c04PodKey)
+	if !found {
 		return false
 	}
-	i := a % len(u.binding)
-	p := u.binding[i]
+	i := 0
+	for j := range u.binding {
+		if u.binding[j] == p {
+			i = j
+		}
+	}
 	if u.conc {
 		p.cycleMu.Lock()
 		defer p.cycleMu.Unlock()
@@ -1350,7 +1382,7 @@ func (u *c04U) checkPartition(where string) {
 	}
 	u.mu.Unlock()
 	var generic *c04Verdict
-	staleOnly := 0
+	var staleOnly []string
 	note := func(sig, format string, a ...any) {
 		if generic == nil {
 			generic = &c04Verdict{sig, where + ": " + fmt.Sprintf(format, a...)}
@@ -1380,7 +1412,7 @@ func (u *c04U) checkPartition(where string) {
 				}
 			}
 			if narrow {
-				staleOnly += both.Len()
+				staleOnly = append(staleOnly, sets.List(both)...)
 				pend = s.PendingChildren.Difference(both)
 			}
 		}
@@ -1417,9 +1449,13 @@ func (u *c04U) checkPartition(where string) {
 	if generic != nil {
 		u.c.Fail(generic.sig, "%s", generic.msg)
 	}
-	if staleOnly > 0 {
-		u.c.Fail("C04/partition/bound-and-pending-after-stale-update",
-			"%s: %d pod(s) are in BoundChildren AND PendingChildren: after PostBind the informer delivered an older version of the pod (node name still empty) and Gang.setChild put it back into PendingChildren", where, staleOnly)
+	if len(staleOnly) > 0 && !u.staleReported {
+		// Narrow signature of the known Gang.setChild defect. Reported without ending the case (the
+		// discrepancy is tolerated above, for exactly these pods, until a bound version heals it) so
+		// that the rest of the history is still explored and other violations are not masked.
+		u.staleReported = true
+		u.c.Report("C04/partition/bound-and-pending-after-stale-update",
+			"%s: %v in BoundChildren AND PendingChildren: after PostBind the informer delivered an older version of the pod (node name still empty) and Gang.setChild put it back into PendingChildren", where, staleOnly)
 	}
 }
 
@@ -1495,7 +1531,7 @@ func (u *c04U) finish() {
 // unit seq
 
 func TestVerifC04Seq(t *testing.T) {
-	kit.Run(t, kit.Config{Property: "C04", Unit: "seq", Quick: 2500, Thorough: 60000,
+	kit.Run(t, kit.Config{Property: "C04", Unit: "seq", Quick: 3500, Thorough: 200000,
 		Rule: "sequential histories of 60-150 operations over 1-2 gang groups of 1-3 gangs (min 1-3, 2-5 pod slots, strict / non-strict, three match policies, annotation and PodGroup sources): API create/touch/delete of pods with lagging in-order informer delivery (stale updates after PostBind on purpose), PodGroup add/update/delete, scheduling cycles (gate, Permit + AllowGangGroup, AfterPostFilter), wake-ups of signalled waiting pods, permit timeouts, bind success (PostBind) / failure (Unreserve); oracles (1)(3) at every scheduler call, (4) after every operation; distinct = (policy, mode, per-gang min / waiting / bound counts) at each Permit decision; non-trivial = case with a release, a wait and a group rejection"},
 		func(c *kit.Case) {
 			u := c04NewUniverse(c, false)
@@ -1576,7 +1612,7 @@ func c04PanicInHarness(stack string) (string, bool) {
 }
 
 func TestVerifC04Conc(t *testing.T) {
-	kit.Run(t, kit.Config{Property: "C04", Unit: "conc", Quick: 700, Thorough: 16000,
+	kit.Run(t, kit.Config{Property: "C04", Unit: "conc", Quick: 1000, Thorough: 60000,
 		Rule: "the same universes; a pre-generated history of 80-160 intents is split into the informer's half (pod create/touch/deliver/delete, PodGroup add / no-change update) and the scheduler's half (cycles, wake-ups, timeouts, bind results) which run on two goroutines in 3 phases under the race detector with random yields between operations; oracles (1)(3) online at the scheduler goroutine against window bounds of the shadow truth, (4) at the quiescent point after each phase; distinct = Permit decision states plus the observed interleaving of each phase; non-trivial = case with a release, a wait and a group rejection"},
 		func(c *kit.Case) {
 			u := c04NewUniverse(c, true)
@@ -1653,6 +1689,160 @@ func TestVerifC04Conc(t *testing.T) {
 					ops = ops[:14]
 				}
 				c.Sample(ops)
+			}
+		})
+}
+
+// ---------------------------------------------------------------------------------------------
+// unit basic (scripted): a handful of hand-written in-domain histories through the same engine and the
+// same oracles (each step names its pod / gang; a step that is not applicable is a harness error)
+
+type c04GangSpec struct {
+	group  int
+	crd    bool
+	min    int
+	slots  int
+	mode   string
+	policy string
+}
+
+type c04Step struct {
+	op   string // create deliver touch delete pg | permit nofit wake timeout bindok bindfail
+	key  string // pod "gN-pM" or gang "gN"
+	want Status // permit: expected status ("" = any); documents the script, a mismatch is a harness error
+}
+
+type c04Script struct {
+	name  string
+	gangs []c04GangSpec
+	steps []c04Step
+}
+
+const (
+	c04S = extension.GangModeStrict
+	c04N = extension.GangModeNonStrict
+	c04W = extension.GangMatchPolicyOnlyWaiting
+	c04R = extension.GangMatchPolicyWaitingAndRunning
+	c04O = extension.GangMatchPolicyOnceSatisfied
+)
+
+var c04Scripts = []c04Script{
+	{name: "stale update (node name still empty) delivered after PostBind",
+		gangs: []c04GangSpec{{0, false, 1, 2, c04S, c04O}},
+		steps: []c04Step{{"create", "g0-p0", ""}, {"deliver", "g0-p0", ""}, {"touch", "g0-p0", ""}, {"permit", "g0-p0", Success},
+			{"bindok", "g0-p0", ""}, {"deliver", "g0-p0", ""}, {"deliver", "g0-p0", ""}}},
+	{name: "delete of a waiting member between two permits",
+		gangs: []c04GangSpec{{0, false, 2, 3, c04S, c04W}},
+		steps: []c04Step{{"create", "g0-p0", ""}, {"create", "g0-p1", ""}, {"create", "g0-p2", ""}, {"deliver", "g0-p0", ""}, {"deliver", "g0-p1", ""}, {"deliver", "g0-p2", ""},
+			{"permit", "g0-p0", Wait}, {"delete", "g0-p0", ""}, {"deliver", "g0-p0", ""}, {"permit", "g0-p1", Wait}, {"wake", "g0-p0", ""}, {"wake", "g0-p1", ""},
+			{"permit", "g0-p1", Wait}, {"permit", "g0-p2", Success}, {"wake", "g0-p1", ""}, {"bindok", "g0-p1", ""}, {"bindok", "g0-p2", ""}}},
+	{name: "unreserve after partial bind, waiting-and-running, strict",
+		gangs: []c04GangSpec{{0, true, 2, 3, c04S, c04R}},
+		steps: []c04Step{{"create", "g0-p0", ""}, {"create", "g0-p1", ""}, {"create", "g0-p2", ""}, {"deliver", "g0-p0", ""}, {"deliver", "g0-p1", ""}, {"pg", "g0", ""}, {"deliver", "g0-p2", ""},
+			{"permit", "g0-p0", Wait}, {"permit", "g0-p1", Success}, {"wake", "g0-p0", ""}, {"bindok", "g0-p0", ""}, {"bindfail", "g0-p1", ""},
+			{"permit", "g0-p2", Success}, {"permit", "g0-p1", Success}, {"bindfail", "g0-p2", ""}, {"bindok", "g0-p1", ""}, {"deliver", "g0-p0", ""}, {"deliver", "g0-p1", ""}}},
+	{name: "group of two gangs: nobody is released while one gang is short; timeout rejects the whole group",
+		gangs: []c04GangSpec{{0, false, 1, 2, c04S, c04W}, {0, false, 2, 2, c04S, c04W}},
+		steps: []c04Step{{"create", "g0-p0", ""}, {"create", "g1-p0", ""}, {"create", "g1-p1", ""}, {"deliver", "g0-p0", ""}, {"deliver", "g1-p0", ""}, {"deliver", "g1-p1", ""},
+			{"permit", "g0-p0", Wait}, {"permit", "g1-p0", Wait}, {"timeout", "g0-p0", ""}, {"wake", "g0-p0", ""}, {"wake", "g1-p0", ""},
+			{"permit", "g1-p0", Wait}, {"permit", "g1-p1", Wait}, {"permit", "g0-p0", Success}, {"wake", "g1-p0", ""}, {"wake", "g1-p1", ""},
+			{"bindok", "g0-p0", ""}, {"bindok", "g1-p0", ""}, {"bindok", "g1-p1", ""}}},
+	{name: "no node fits for one member of a strict group: every waiting member is rejected; non-member gang untouched",
+		gangs: []c04GangSpec{{0, false, 3, 3, c04S, c04O}, {1, false, 2, 2, c04N, c04W}},
+		steps: []c04Step{{"create", "g0-p0", ""}, {"create", "g0-p1", ""}, {"create", "g0-p2", ""}, {"create", "g1-p0", ""}, {"create", "g1-p1", ""},
+			{"deliver", "g0-p0", ""}, {"deliver", "g0-p1", ""}, {"deliver", "g0-p2", ""}, {"deliver", "g1-p0", ""}, {"deliver", "g1-p1", ""},
+			{"permit", "g1-p0", Wait}, {"permit", "g0-p0", Wait}, {"permit", "g0-p1", Wait}, {"nofit", "g0-p2", ""}, {"wake", "g0-p0", ""}, {"wake", "g0-p1", ""},
+			{"permit", "g1-p1", Success}, {"wake", "g1-p0", ""}, {"bindok", "g1-p0", ""}, {"bindfail", "g1-p1", ""}}},
+	{name: "once-satisfied: after the first bind a lone member is released; stale update while waiting; re-created pod",
+		gangs: []c04GangSpec{{0, true, 2, 3, c04S, c04O}},
+		steps: []c04Step{{"pg", "g0", ""}, {"create", "g0-p0", ""}, {"create", "g0-p1", ""}, {"deliver", "g0-p0", ""}, {"deliver", "g0-p1", ""},
+			{"permit", "g0-p0", Wait}, {"touch", "g0-p0", ""}, {"deliver", "g0-p0", ""}, {"permit", "g0-p1", Success}, {"wake", "g0-p0", ""}, {"bindok", "g0-p0", ""}, {"bindfail", "g0-p1", ""},
+			{"delete", "g0-p1", ""}, {"deliver", "g0-p1", ""}, {"create", "g0-p1", ""}, {"deliver", "g0-p1", ""}, {"create", "g0-p2", ""}, {"deliver", "g0-p2", ""},
+			{"permit", "g0-p1", Success}, {"bindok", "g0-p1", ""}, {"nofit", "g0-p2", ""}, {"deliver", "g0-p0", ""}}},
+}
+
+func c04ScriptUniverse(c *kit.Case, sc c04Script) *c04U {
+	u := &c04U{c: c, ctx: context.TODO()}
+	u.h = &c04Handle{waiting: map[types.UID]*c04WP{}}
+	f := false
+	args := &config.CoschedulingArgs{DefaultTimeout: metav1.Duration{Duration: 600 * time.Second}, DefaultMatchPolicy: extension.GangMatchPolicyOnceSatisfied,
+		EnablePreemption: &f, AwareNetworkTopology: &f}
+	u.mgr = &PodGroupManager{handle: u.h, args: args, cache: NewGangCache(args, nil, nil, nil, u.h)}
+	groups := map[int]*c04Group{}
+	for i, gs := range sc.gangs {
+		grp := groups[gs.group]
+		if grp == nil {
+			grp = &c04Group{idx: gs.group}
+			groups[gs.group] = grp
+			u.groups = append(u.groups, grp)
+		}
+		g := &c04Gang{idx: i, name: fmt.Sprintf("g%d", i), crd: gs.crd, group: grp, slots: gs.slots, want: c04Cfg{gs.min, gs.mode, gs.policy}}
+		g.id = c04NS + "/" + g.name
+		grp.gangs = append(grp.gangs, g)
+		grp.ids = append(grp.ids, g.id)
+		u.gangs = append(u.gangs, g)
+	}
+	for _, grp := range u.groups {
+		sort.Strings(grp.ids)
+	}
+	return u
+}
+
+func TestVerifC04Scripted(t *testing.T) {
+	n := len(c04Scripts)
+	kit.Run(t, kit.Config{Property: "C04", Unit: "basic", Quick: n, Thorough: n, Exhaustive: true,
+		Rule: "hand-written in-domain histories (stale update after PostBind, delete between two permits, unreserve after partial bind, two-gang group with one gang short, no-node-fits in a strict group, once-satisfied with re-created pod) run through the same engine and oracles; every step names its pod; a step that is not applicable is a harness error, a Wait where the script expects Success ends the script (counted as converse miss)"},
+		func(c *kit.Case) {
+			sc := c04Scripts[c.K]
+			u := c04ScriptUniverse(c, sc)
+			u.op("-", "script %q universe %s", sc.name, u.describe())
+			for i, st := range sc.steps {
+				u.force = c04NS + "/" + st.key
+				ok := false
+				switch st.op {
+				case "create":
+					ok = u.infCreate(0, false)
+				case "deliver":
+					ok = u.infDeliver(0, nil)
+				case "touch":
+					ok = u.infTouch(0, 1)
+				case "delete":
+					ok = u.infDelete(0)
+				case "pg":
+					ok = u.infPG(0, 0, false)
+				case "permit":
+					u.lastPermit = ""
+					ok = u.cycle(0, true, nil)
+					if ok && st.want == Success && u.lastPermit == Wait {
+						// stricter than the script expects: the converse direction, counted only; the
+						// rest of the script no longer applies
+						c.Count("converse_misses_scripted_wait_instead_of_success", 1)
+						u.op("-", "script ends early: Permit of %s returned Wait, the script expected Success", st.key)
+						return
+					}
+					if ok && st.want != "" && u.lastPermit != st.want {
+						c.Harness("script %q step %d: Permit of %s returned %q, the script expects %q", sc.name, i, st.key, u.lastPermit, st.want)
+					}
+				case "nofit":
+					ok = u.cycle(0, false, nil)
+				case "wake":
+					ok = u.wake(0)
+				case "timeout":
+					ok = u.timeout(0)
+				case "bindok":
+					ok = u.bindFinish(0, true)
+				case "bindfail":
+					ok = u.bindFinish(0, false)
+				}
+				if !ok {
+					c.Harness("script %q step %d (%s %s) is not applicable", sc.name, i, st.op, st.key)
+				}
+				u.checkPartition(fmt.Sprintf("script %q after step %d (%s %s)", sc.name, i, st.op, st.key))
+			}
+			c.NonTrivial()
+			c.Evals(len(sc.steps) - 1)
+			if c.K == 1 {
+				c.Sample(c.Ops())
 			}
 		})
 }
